@@ -96,31 +96,53 @@ def coq_option(x):
     return 'None' if x is None else '(Some %s)' % x
 
 
-def forbidden_scan():
-    """grep every .v file of the development for constructs that weaken the kernel's guarantees"""
-    bad = []
-    for dp, _, fs in os.walk(THEORIES):
-        for f in fs:
-            if not f.endswith('.v'):
+def dep_cone(vfiles):
+    """transitive closure of `From Teleport Require ... X.Y` dependencies (paths relative to THEORIES)"""
+    seen, todo = set(), list(vfiles)
+    while todo:
+        f = todo.pop()
+        if f in seen or not os.path.exists(os.path.join(THEORIES, f)):
+            continue
+        seen.add(f)
+        txt = open(os.path.join(THEORIES, f), encoding='utf-8', errors='replace').read()
+        for stmt in re.split(r'\.(?:\s+|$)', txt):
+            if 'Require' not in stmt:
                 continue
-            p = os.path.join(dp, f)
-            txt = open(p, encoding='utf-8', errors='replace').read()
-            # strip comments (nested) before scanning
-            out, depth, i = [], 0, 0
-            while i < len(txt):
-                if txt.startswith('(*', i):
-                    depth += 1
-                    i += 2
-                elif txt.startswith('*)', i) and depth > 0:
-                    depth -= 1
-                    i += 2
-                else:
-                    if depth == 0:
-                        out.append(txt[i])
-                    i += 1
-            for ln, line in enumerate(''.join(out).split('\n')):
-                if FORBIDDEN.search(line):
-                    bad.append('%s: %s' % (os.path.relpath(p, ROOT), line.strip()[:120]))
+            for mod in re.findall(r'[A-Za-z_][A-Za-z0-9_.]*', stmt.split('Require', 1)[1]):
+                if mod.startswith('Teleport.'):
+                    mod = mod[len('Teleport.'):]
+                cand = mod.replace('.', '/') + '.v'
+                if os.path.exists(os.path.join(THEORIES, cand)):
+                    todo.append(cand)
+    return sorted(seen)
+
+
+def forbidden_scan(vfiles=None):
+    """grep the .v files (default: all; else the dependency cone of vfiles, relative to theories/) for
+    constructs that weaken the kernel's guarantees"""
+    bad = []
+    if vfiles is None:
+        paths = [os.path.join(dp, f) for dp, _, fs in os.walk(THEORIES) for f in fs if f.endswith('.v')]
+    else:
+        paths = [os.path.join(THEORIES, f) for f in dep_cone(vfiles)]
+    for p in sorted(paths):
+        txt = open(p, encoding='utf-8', errors='replace').read()
+        # strip comments (nested) before scanning
+        out, depth, i = [], 0, 0
+        while i < len(txt):
+            if txt.startswith('(*', i):
+                depth += 1
+                i += 2
+            elif txt.startswith('*)', i) and depth > 0:
+                depth -= 1
+                i += 2
+            else:
+                if depth == 0:
+                    out.append(txt[i])
+                i += 1
+        for ln, line in enumerate(''.join(out).split('\n')):
+            if FORBIDDEN.search(line):
+                bad.append('%s: %s' % (os.path.relpath(p, ROOT), line.strip()[:120]))
     return bad
 
 
@@ -144,6 +166,7 @@ def coq_build(targets=None, jobs=16, timeout=3000):
             return False, 'translator failed:\n' + out0
         mk = os.path.join(COQ, 'Makefile')
         cp = os.path.join(COQ, '_CoqProject')
+        sh([os.path.join(ROOT, 'tools', 'gen_coqproject.sh')], cwd=ROOT)
         if not os.path.exists(mk) or os.path.getmtime(mk) < os.path.getmtime(cp):
             rc, out = sh('coq_makefile -f _CoqProject -o Makefile', cwd=COQ)
             if rc != 0:
@@ -181,8 +204,9 @@ def check_props(prop, workdir, extra_modules=()):
     targets = [f[:-2] + '.vo' for f in files]
     ok, blog = coq_build(targets)
     res = dict(build_ok=ok, build_log=blog[-6000:], theorems=[], obligations=0, discharged=0)
-    bad = forbidden_scan()
+    bad = forbidden_scan([f[len('theories/'):] for f in files])
     res['forbidden'] = bad
+    res['cone'] = dep_cone([f[len('theories/'):] for f in files])
     for f in files:
         vf = os.path.join(COQ, f)
         names = theorem_names(vf)
